@@ -44,6 +44,7 @@ struct Global {
 	RunCtx *ctx = nullptr;
 	bool canonical_only = false;  // execute every line search under the canonical schedule only (reference solves)
 	bool depth_direct = false;
+	bool one_worker_first = false;   // order of the reference executions of a line search (history of worker counts within the process)
 	bool compare = true;          // refinement check at every wrapped line search
 	int workers = 1;
 	int64_t line_searches = 0;
@@ -222,10 +223,13 @@ extern "C" int __wrap_walk_descents(cholmod_sparse *AtA_F, cholmod_dense *Atb_F,
 
 	// 1. reference executions of the same code: canonical schedule, same worker count; and one worker
 	ctx.crumb("walk_descents(canonical)|workers=%d", n_threads);
-	LsOut can = canonical_line_search(AtA_F, Atb_F, x, x_F, F, nF, nH1_in, residual_in, calcs_in, c, n_threads);
+	// (the order of the two is a knob of the plan: the calls of one process form a history, and a line search
+	// with few workers followed by one with many is a different history from the reverse)
 	bool do_one = n_threads != 1 && (G.depth_direct || (G.line_searches % 4) == 1);
-	LsOut one;
-	if (do_one) one = canonical_line_search(AtA_F, Atb_F, x, x_F, F, nF, nH1_in, residual_in, calcs_in, c, 1);
+	LsOut one, can;
+	if (do_one && G.one_worker_first) one = canonical_line_search(AtA_F, Atb_F, x, x_F, F, nF, nH1_in, residual_in, calcs_in, c, 1);
+	can = canonical_line_search(AtA_F, Atb_F, x, x_F, F, nF, nH1_in, residual_in, calcs_in, c, n_threads);
+	if (do_one && !G.one_worker_first) one = canonical_line_search(AtA_F, Atb_F, x, x_F, F, nF, nH1_in, residual_in, calcs_in, c, 1);
 
 	// 2. the explored execution, on the real arguments, under the plan's schedule
 	ctx.crumb("walk_descents|workers=%d", n_threads);
@@ -1088,6 +1092,7 @@ struct SchedHarness : Harness {
 			if (depth == "fit" && w >= 80) mode = "auto";
 			plan["cholmod"] = Json(mode);
 		}
+		{ Rng co(runseed, "call_order"); plan["one_worker_first"] = Json(co.chance(0.5)); }
 		plan["schedule"] = gen_sched(knob, workers, est_len);
 		plan["cross_workers"] = Json(depth == "fit" && knob.chance(0.25));
 		return plan;
@@ -1135,6 +1140,7 @@ struct SchedHarness : Harness {
 		SchedConfig sc = SchedConfig::from_json(plan["schedule"]);
 		G = Global();
 		G.ctx = &ctx; G.workers = workers; G.prop = prop;
+		G.one_worker_first = plan.getb("one_worker_first");
 		psv_env_threads = workers;
 		psv_affinity_fails = plan.getb("affinity_fails") ? 1 : 0;
 		psv_ncpus = (int)plan.geti("ncpus", 0);
